@@ -88,7 +88,8 @@ CollectionFaithful(mode, cls) == \A n \in HandlerNames : Collected(mode, cls, n)
 \* "" or the own function that serves node e in the rebuilt class
 RebuiltBody(mode, cls, e) ==
     LET b == Collected(mode, cls, MethodOf(e.t)) IN IF b[1] = "own" THEN b[2] ELSE ""
-MkOf(cls) == [m |-> cls.m, scope |-> "all", ov |-> IF "ov" \in DOMAIN cls THEN cls.ov ELSE << >>]
+MkOf(cls) == LET b == [m |-> cls.m, scope |-> "all", ov |-> IF "ov" \in DOMAIN cls THEN cls.ov ELSE << >>]
+             IN IF "val" \in DOMAIN cls THEN [val |-> cls.val] @@ b ELSE b   \* round 7: "nil" classes
 
 Opt(da, dk, ir, ic, ik) == [da |-> da, dk |-> dk, ir |-> ir, ic |-> ic, ik |-> ik]
 AllOpts == { Opt(a, b, c, d, e) : a, b, c, d, e \in BOOLEAN }
@@ -114,12 +115,18 @@ SemOf(seq) ==
     LET n == Len(seq)  P == StateAfter(seq, n)  o == seq[n].o  cls == seq[n].cls IN
     [sigA |-> ~o.da, sigK |-> ~o.dk, callA |-> ~P.ad, callK |-> ~P.kd, site |-> P.site,
      key |-> IF P.key = "call" THEN "call-" \o KeyExprOf(cls) ELSE P.key,
-     cls |-> cls, collect |-> "bound", fb |-> "faithful"]
+     cls |-> cls, collect |-> "bound", fb |-> "faithful", ihit |-> "identity"]
 SemOfMode(seq, mode) == [SemOf(seq) EXCEPT !.collect = mode]
 \* round 4: fb is the dispatch-path mode of C05_MemoImpl!HandlerArgs (the rewritten class
 \* reaches handlers through CachedMapper.__call__ or the inlined dispatch; both leave the
 \* class-hierarchy search to rec_fallback)
 SemOfModes(seq, mode, fb) == [SemOf(seq) EXCEPT !.collect = mode, !.fb = fb]
+
+\* round 7: ihit is the HIT TEST of the look-aside that inline_cache writes around a former
+\* rec site (C05_MemoImpl!HitOutcome): "identity" = against the sentinel (design = code);
+\* "notnone" / "truthy" = the stored RESULT is asked whether it is None / true, so a result
+\* that looks like nothing is recomputed (and stored again) at every inlined site
+SemOfHit(seq, mode, fb, ihit) == [SemOf(seq) EXCEPT !.collect = mode, !.fb = fb, !.ihit = ihit]
 
 EffArgs(sem, a) == Args(IF sem.callA THEN a.pos ELSE << >>, IF sem.callK THEN a.kw ELSE << >>)
 SigFits(sem, a) == (sem.sigA \/ Len(a.pos) = 0) /\ (sem.sigK \/ Len(a.kw) = 0)
@@ -165,7 +172,8 @@ OSite(sem, st, mk, e, a, t) ==
     IF t[1] = "R" THEN OFull(sem, st, mk, e, a)
     ELSE IF t[1] = "D" THEN OHandler(sem, st, mk, e, a)
     ELSE LET k2 == Key2(e) IN
-         IF k2 \in DOMAIN st.tab THEN [tab |-> st.tab, evs |-> st.evs, r |-> st.tab[k2]]
+         IF k2 \in DOMAIN st.tab /\ HitOutcome(sem.ihit, st.tab[k2]) = "hit"
+         THEN [tab |-> st.tab, evs |-> st.evs, r |-> st.tab[k2]]
          ELSE LET c == OSite(sem, st, mk, e, a, Tail(t)) IN
               [tab |-> (k2 :> c.r) @@ c.tab, evs |-> c.evs, r |-> c.r]
 
@@ -179,7 +187,10 @@ OCall(sem, tab, e, a) ==
                         evs |-> << [ev |-> "R", k |-> k, r |-> ErrR(ke), f |-> f] >>]
        ELSE LET c == OFull(sem, [tab |-> tab, evs |-> << >>], mk, e, a) IN
             [tab |-> c.tab, r |-> c.r,
-             evs |-> Append(c.evs, [ev |-> "R", k |-> k, r |-> c.r, f |-> f])]
+             \* (round 7) a traversal that returns nothing is observed through the keys it touches
+             evs |-> Append(c.evs, IF mk.m = "walk"
+                                   THEN [ev |-> "W", k |-> k, F |-> TouchedKeys(mk, e, a)]
+                                   ELSE [ev |-> "R", k |-> k, r |-> c.r, f |-> f])]
 
 (***************************************************************************)
 (* Named deviations: why a rewritten class may leave the property, as the  *)
